@@ -26,6 +26,7 @@ type State struct {
 	masterSecret              []byte
 	exporterMasterSecret      []byte // DTLS 1.3 only (RFC 8446 Section 7.5)
 	sequenceNumber            uint64
+	acceptedRemoteSequence    uint64 // highest accepted protected record number of the peer plus one, 0: none
 	srtpProtectionProfile     SRTPProtectionProfile
 	peerSRTPMKI               []byte
 	localConnectionID         []byte
@@ -60,6 +61,10 @@ type serializedState struct {
 	RRCNegotiated         bool
 	IsClient              bool
 	NegotiatedProtocol    string
+	// AcceptedRemoteSequence is the highest protected record number accepted
+	// from the peer, plus one (0: none). Absent in states serialised by older
+	// versions, which then resume with an empty replay window as before.
+	AcceptedRemoteSequence uint64
 }
 
 func generateState(internalState *dtlsstate.State) (*State, error) {
@@ -162,24 +167,25 @@ func (s *State) serialize() (*serializedState, error) {
 	}
 
 	return &serializedState{
-		Version:               version,
-		LocalEpoch:            s.localEpoch,
-		RemoteEpoch:           s.remoteEpoch,
-		CipherSuiteID:         uint16(s.CipherSuiteID),
-		MasterSecret:          s.masterSecret,
-		SequenceNumber:        s.sequenceNumber,
-		LocalRandom:           s.localRandom.MarshalFixed(),
-		RemoteRandom:          s.remoteRandom.MarshalFixed(),
-		SRTPProtectionProfile: uint16(s.srtpProtectionProfile),
-		PeerSRTPMKI:           bytes.Clone(s.peerSRTPMKI),
-		PeerCertificates:      s.PeerCertificates,
-		IdentityHint:          s.IdentityHint,
-		SessionID:             s.SessionID,
-		LocalConnectionID:     s.localConnectionID,
-		RemoteConnectionID:    s.remoteConnectionID,
-		RRCNegotiated:         s.rrcNegotiated,
-		IsClient:              s.isClient,
-		NegotiatedProtocol:    s.NegotiatedProtocol,
+		Version:                version,
+		LocalEpoch:             s.localEpoch,
+		RemoteEpoch:            s.remoteEpoch,
+		CipherSuiteID:          uint16(s.CipherSuiteID),
+		MasterSecret:           s.masterSecret,
+		SequenceNumber:         s.sequenceNumber,
+		AcceptedRemoteSequence: s.acceptedRemoteSequence,
+		LocalRandom:            s.localRandom.MarshalFixed(),
+		RemoteRandom:           s.remoteRandom.MarshalFixed(),
+		SRTPProtectionProfile:  uint16(s.srtpProtectionProfile),
+		PeerSRTPMKI:            bytes.Clone(s.peerSRTPMKI),
+		PeerCertificates:       s.PeerCertificates,
+		IdentityHint:           s.IdentityHint,
+		SessionID:              s.SessionID,
+		LocalConnectionID:      s.localConnectionID,
+		RemoteConnectionID:     s.remoteConnectionID,
+		RRCNegotiated:          s.rrcNegotiated,
+		IsClient:               s.isClient,
+		NegotiatedProtocol:     s.NegotiatedProtocol,
 	}, nil
 }
 
@@ -194,6 +200,7 @@ func (s *State) deserialize(serialized serializedState) {
 	s.remoteRandom.UnmarshalFixed(serialized.RemoteRandom)
 	s.masterSecret = serialized.MasterSecret
 	s.sequenceNumber = serialized.SequenceNumber
+	s.acceptedRemoteSequence = serialized.AcceptedRemoteSequence
 	s.srtpProtectionProfile = SRTPProtectionProfile(serialized.SRTPProtectionProfile)
 	s.peerSRTPMKI = bytes.Clone(serialized.PeerSRTPMKI)
 	s.localConnectionID = serialized.LocalConnectionID
